@@ -14,7 +14,7 @@ CFG = {
             100,
             1500
         ], ["relayinactive", 3, 20]],
-    "rule": "respwire: scripted connections to a real server (handlers driven one API call at a time; deadline expiry, cancel frames, graceful close, peer cut, duplicate id, undecodable request forced at chosen points) compared with Model/RespWire.v (run_respwire: frames per id, result of every API call, final connection state); many concurrent ids with free-running handlers (complete 1..n fragments / system error / partial then system error / overrun / blackhole) directly and through a real relay (RelayMaxTimeout 150 ms) judged by the frame-grammar oracle written from the property text, incl. exactly one timeout error frame and nothing after it. relaywire: the forced relay schedules of engine relaysched (see C09) judged by the same grammar oracle on the caller's connection and compared with Model/RelayItems.v (frame logs of both connections). Non-trivial = a call that produced frames; distinct by script/schedule.",
+    "rule": "respwire: scripted connections to a real server (handlers driven one API call at a time; deadline expiry, cancel frames, graceful close, peer cut, duplicate id, undecodable request forced at chosen points) compared with Model/RespWire.v (run_respwire: frames per id, result of every API call, final connection state); many concurrent ids with free-running handlers (complete 1..n fragments / system error / partial then system error / overrun / blackhole) directly and through a real relay (RelayMaxTimeout 150 ms) judged by the frame-grammar oracle written from the property text, incl. exactly one timeout error frame and nothing after it. The close-vs-admission window of handleCallReq (Close between newExchange and the state re-check: the call is declined with one error frame) is forced with the schedule point inbound.afterNewExchange in every 8th scripted case. relaywire: the forced relay schedules of engine relaysched (see C09) judged by the same grammar oracle on the caller's connection and compared with Model/RelayItems.v (frame logs of both connections); every schedule is classified by the extracted proved predicates (sub relaycalm, Model/RelayCalm.v): a grammar violation on the implementation or in the model inside the class of C10_relay_grammar_calm (no overlap, causal, destination frames well-formed) fails the case. Non-trivial = a call that produced frames; distinct by script/schedule.",
     "trusted_base": COMMON_TRUSTED + [
         "server side modelled by hand (tied by correspondence): inbound.go handleCallReq/dispatchInbound/InboundCallResponse, reqres.go reqResWriter, fragmenting_writer.go state machine, mex.go checkError/shutdown/inboundExpired/handleCancel/stopExchanges, connection.go SendSystemError/protocolError/close/checkExchanges (mex.shutdown and checkExchanges are one atomic action each)",
         "relay side: Model/RelayItems.v as for C09",
@@ -22,7 +22,7 @@ CFG = {
     ],
     "assumptions": [
         "ids requested at most once per connection (duplicate in-flight ids are C04's protocol-error case); handlers call SendSystemError only while doneSending has not run (the property's quantifier)",
-        "relay: C10_relay_grammar is refuted on this tree (known finding relay:response-frame-after-timeout-error); proved for all interleavings: nothing for ids never requested, nothing after the item is settled, the timeout path leaves exactly one timeout error frame to send. The prefix-of-an-accepted-word clause for frames relayed before that point is NOT proved for the relay: oracle and correspondence only",
+        "relay: C10_relay_grammar is refuted on this tree (known finding relay:response-frame-after-timeout-error); proved for all interleavings: nothing for ids never requested, nothing after the item is settled, the timeout path leaves exactly one timeout error frame to send; the prefix-of-an-accepted-word clause is proved (C10_relay_grammar_calm) for all fresh-id schedules without overlap (Model/RelayCalm.v no_overlap: no goroutine acts on a call while another goroutine holds a looked-up copy of its item) under two hypotheses on the destination: per message id its frames are a prefix of an accepted word (dest_ok) and it does not answer a message id the relay has not allocated on that connection (causal; without it the clause is false: the tail of an earlier stream is forwarded under a fresh id)",
         "wall-clock: that a relayed call times out within its clamped ttl is checked by the oracle with generous slack, not proved"
     ]
 }
